@@ -125,6 +125,29 @@ class Family:
                         history=dict(inputs=[dec(x[1]) for x in rs], picks=[x[2] for x in rs], mode=rs[-1][3] if rs else mode, tail=False))
         self.validate(tr, 'seeded random program (mode %s)' % mode, case_of)
 
+    def examples(self, nsess, maxreq, mode='LP'):
+        """the repository's example applications, assembled by the real assembler, stub functions for their LOAD symbols"""
+        tr = os.path.join(self.d, 'examples.ndjson')
+        p = core.run_harness(['vise-examples', os.path.join(core.REPO, 'examples'), tr, str(nsess), str(maxreq), mode])
+        summ = harness_summary(p)
+        self.out.cov['traces_validated_against_impl'] += summ['sessions']
+        self.out.cov['example_apps'] = summ['apps']
+        progs, reqs = {}, {}
+        for line in open(tr):
+            if line.startswith('{"ev":"prog"'):
+                pr = json.loads(line)['prog']
+                progs[pr['name']] = pr
+            elif '"ev":"req"' in line[:40]:
+                ev = json.loads(line)
+                reqs.setdefault(ev['sid'], []).append((ev['req'], ev['input'], ev['picks'], ev['mode']))
+
+        def case_of(ev):
+            sid = ev['sid']
+            rs = [x for x in sorted(reqs.get(sid, [])) if x[0] <= ev['req']]
+            return dict(example=sid.rsplit('.s', 1)[0], program=progs[sid.rsplit('.s', 1)[0]],
+                        history=dict(inputs=[dec(x[1]) for x in rs], picks=[x[2] for x in rs], mode=rs[-1][3] if rs else 'L', tail=False))
+        self.validate(tr, 'example application', case_of)
+
     def pairs_stage(self, nprog, nsess, maxreq, stores='mem,fs,pg'):
         tr = os.path.join(self.d, 'pairs.ndjson')
         p = core.run_harness(['vise-pairs', tr, str(nprog), str(nsess), str(maxreq), stores])
